@@ -203,8 +203,25 @@ def body_buffered_close(I, X, via="make_sequence", method="GET", lens=(2,)):
     elif via == "calculate_content_length":
         I.call(resp.calculate_content_length, ())
     environ = {"REQUEST_METHOD": method, "wsgi.url_scheme": "http", "SERVER_NAME": "s", "SERVER_PORT": "80", "PATH_INFO": "/"}
-    app_iter, st, headers = I.call(resp.get_wsgi_response, (environ,))
+    if via == "partial":
+        # CPython drives the response here (the interpreter evaluates generators eagerly and
+        # would hide what closing a half-consumed generator does); solver values still flow
+        # through the real code, branches on them fork as usual
+        app_iter, st, headers = resp.get_wsgi_response(environ)
+    else:
+        app_iter, st, headers = I.call(resp.get_wsgi_response, (environ,))
     out = b""
+    if via == "partial":
+        # the server stops after the first chunk (client went away) and closes the iterable;
+        # driven by CPython's own iterator protocol (generators are closed, not exhausted)
+        it = iter(app_iter)
+        for item in it:
+            out = pconcat(out, item)
+            break
+        if hasattr(app_iter, "close"):
+            app_iter.close()
+        ok = pand(len(closed) == 1, cb.closed == 1)
+        return ok, {"out": out, "closed": len(closed), "body_closed": cb.closed}
     for item in (I.call(app_iter.__iter__, ()) if not isinstance(app_iter, (tuple, list)) else app_iter):
         out = pconcat(out, item)
     if hasattr(app_iter, "close"):
@@ -355,9 +372,9 @@ def obligations(tier, seed):
                 out.append({"name": f"location[{form},autocorrect={autocorrect},n={n}]", "body": "body_location",
                             "params": {"n": n, "form": form, "autocorrect": autocorrect},
                             "opts": {"budget_s": 900, "ctx": {"max_cp": 0x7FF}}})
-    for via in ("make_sequence", "get_data", "calculate_content_length", "none"):
+    for via in ("make_sequence", "get_data", "calculate_content_length", "none", "partial"):
         for method in ("GET", "HEAD"):
-            for lens in [(), (2,), (1, 0)]:
+            for lens in [(), (2,), (1, 0)] + ([(1, 1, 1)] if via == "partial" else []):
                 out.append({"name": f"buffered_close[{via},{method},lens={lens}]", "body": "body_buffered_close",
                             "params": {"via": via, "method": method, "lens": list(lens)},
                             "opts": {"budget_s": 600, "ctx": {"bv_ints": True}}})
